@@ -26,6 +26,26 @@ func extraGen(kind string, seed int64, prop string, idx int) (*Case, bool) {
 	case "tinysamp":
 		r := caseRand(seed, kind, idx)
 		return &Case{Kind: kind, H: genTiny(r.Intn(tinyTotal(tinyMaxLen)), r)}, true
+	case "tinyscope":
+		h := genTinyS(idx, caseRand(seed, kind, idx))
+		if h == nil {
+			return nil, true
+		}
+		return &Case{Kind: kind, H: h}, true
+	case "tinyscopesamp":
+		r := caseRand(seed, kind, idx)
+		h := genTinyS(r.Intn(tinySTotal(tinySMaxLen)), r)
+		if h == nil {
+			return nil, true
+		}
+		return &Case{Kind: kind, H: h}, true
+	case "difftinyscope:c16":
+		r := caseRand(seed, kind, idx)
+		h := genTinyS(idx, r)
+		if h == nil {
+			return nil, true
+		}
+		return &Case{Kind: kind, H: h, X: map[string]interface{}{"tseed": r.Int63n(1 << 40)}}, true
 	case "tinyfault":
 		h := genTinyFault(idx, caseRand(seed, kind, idx))
 		if h == nil {
